@@ -312,6 +312,9 @@ class C09Monitor(Monitor):
         self.first_activity = {}
         self.first_tx_after_rx = {}
         self.mark = {}
+        self.good_rx = {}
+        self.seen_rx = {}
+        self.top_pn = {}
 
     def on_api(self, sim, x, name, a):
         if name == "close":
@@ -329,6 +332,31 @@ class C09Monitor(Monitor):
         self.last_rx[x] = now
         self.first_tx_after_rx.pop(x, None)
         self.first_activity.setdefault(x, now)
+        # a lower bound for the idle deadline: a datagram this endpoint sees for the first time, after its handshake completed and before it
+        # started closing, that contains a 1-RTT packet the wire observer can open with the sender's keys, is a packet "received and processed
+        # successfully" (RFC 9000 section 10.1) whatever frames it carries - the idle period restarts there
+        ep = sim.ep[x]
+        if sim.wire is None or ep.terminated is not None:
+            return
+        seen = self.seen_rx.setdefault(x, set())
+        if data in seen:
+            return
+        seen.add(data)
+        try:
+            views = sim.wire.decode(sim.peer(x), data, record=False)
+        except Exception:  # noqa
+            views = []
+        # only a packet with a number above everything delivered so far counts: an older one may lawfully be discarded (below the floor of the
+        # duplicate-detection window, or protected with keys of a generation the endpoint has dropped)
+        top = self.top_pn.get(x, -1)
+        app = [v for v in views if v.ptype in ("1rtt", "0rtt") and v.frames is not None and v.pn is not None]
+        if app:
+            self.top_pn[x] = max(top, max(v.pn for v in app))
+        fresh = [v for v in app if v.ptype == "1rtt" and v.pn > top]
+        if fresh and ep.handshake_complete and x not in self.closing and self._state(ep.conn) == "CONNECTED":
+            self.good_rx[x] = now
+            if any(all(n in ("path_challenge", "path_response", "new_connection_id", "padding") for n in v.names()) for v in fresh):
+                sim.stats["c09:probing-only-packet-received"] += 1
 
     def after_cycle(self, sim, x, now, produced):
         ep = sim.ep[x]
@@ -398,6 +426,10 @@ class C09Monitor(Monitor):
                 first = self.first_activity.get(x, 0.0)
                 if now < first + idle_cfg - 1e-9:
                     sim.violation("idle-termination-too-early", "%s reported idle timeout at t=%.4f, it only became active at t=%.4f, negotiated idle timeout %.3f" % (x, now, first, idle_cfg))
+                    raise simnet.SimStop()
+                good = self.good_rx.get(x)
+                if good is not None and now < good + idle_cfg - 1e-9:
+                    sim.violation("idle-termination-before-idle-deadline", "%s reported idle timeout at t=%.4f although it received and could process a 1-RTT packet at t=%.4f; negotiated idle timeout %.3f, so the idle deadline was not before t=%.4f" % (x, now, good, idle_cfg, good + idle_cfg))
                     raise simnet.SimStop()
 
     def finish(self, sim):
@@ -774,7 +806,7 @@ def monitors_for(prop):
 def c01_nontrivial(sim):
     # >= 1 datagram was dropped / duplicated during the application phase and >= 1 stream delivered its FIN
     mon = sim.monitors[0]
-    lossy = sim.stats["fate:drop"] + sim.stats["fate:dup"] > 0
+    lossy = sim.stats["fate:drop"] + sim.stats["fate:dup"] + sim.stats["held-client-datagram"] + sim.stats["lost-first-to-new-address"] > 0
     return lossy and sum(mon.eos.values()) > 0
 
 
@@ -782,7 +814,7 @@ def sim_task(ctx, prop, profile_name, examples, shard):
     from hypothesis import strategies as st
     from .harness import run_hypothesis
 
-    strat = rebind_strategy() if profile_name == "C01-rebind-validation" else migration_strategy() if profile_name == "C13-migration" else slow_handshake_strategy() if profile_name == "C13-slow-handshake" else case_strategy(PROFILES[profile_name])
+    strat = rebind_strategy() if profile_name == "C01-rebind-validation" else probe_then_silence_strategy() if profile_name == "C09-probe-then-silence" else late_old_address_strategy() if profile_name == "C01-late-old-address" else migration_strategy() if profile_name == "C13-migration" else slow_handshake_strategy() if profile_name == "C13-slow-handshake" else case_strategy(PROFILES[profile_name])
 
     def body(ctx, case):
         sim = run_case(ctx, prop, case)
@@ -795,7 +827,7 @@ def sim_task(ctx, prop, profile_name, examples, shard):
         classes.append("cfg:" + case["cfg"]["cc"])
         nt = c01_nontrivial(sim) if prop == "C01" else bool(getattr(sim.monitors[0], "nontrivial", True))
         for k in sim.stats:
-            if k.startswith(("c09:", "c08:", "c13:", "c12:", "c01:", "lost-first-to-new-address")):
+            if k.startswith(("c09:", "c08:", "c13:", "c12:", "c01:", "lost-first-to-new-address", "lost-to-left-address-fair", "held-client-datagram")):
                 classes.append(k)
         ctx.case(sim.seed(), nontrivial=nt, classes=classes)
         if ctx.want_sample():
@@ -822,6 +854,55 @@ def rebind_strategy():
     return st.tuples(
         st.sampled_from([0.3, 0.5, 1.0]), st.sampled_from([1, 1, 2, 3]), st.integers(3, 12), st.sampled_from([0.05, 0.2, 0.4]), st.sampled_from([100, 20000, 300000, 300000]),
         st.sampled_from(["s", "s", "c"]), st.sampled_from(["reno", "cubic"]), st.sampled_from([1200, 1350]), st.booleans(),
+    ).map(build)
+
+
+def late_old_address_strategy():
+    """a client whose address is rebound once, on a network that holds back the last datagram(s) it sent from the old address until the server
+    has already moved to the new one; afterwards the client only listens while the server writes (RFC 9000 section 9.3: only a packet with
+    the highest packet number received so far moves the path, so the late datagram must not take the server back to the address the client left)"""
+    from hypothesis import strategies as st
+
+    def build(t):
+        t_rebind, before, hold, n_after, size, fin, cc, mds, early_write = t
+        script = []
+        if early_write:
+            script.append({"t": round(t_rebind - 0.2, 4), "who": "s", "op": "write", "stream": "uni", "n": early_write, "fin": False})
+        for i in range(before):
+            script.append({"t": round(t_rebind - 0.002 - 0.004 * i, 4), "who": "c", "op": "ping"})
+        script.append({"t": t_rebind, "who": "c", "op": "rebind"})
+        for i in range(n_after):
+            script.append({"t": round(t_rebind + 0.01 + 0.03 * i, 4), "who": "c", "op": "ping"})
+        script.append({"t": round(t_rebind + hold + 0.4, 4), "who": "s", "op": "write", "stream": "uni", "n": size, "fin": fin})
+        script.append({"t": round(t_rebind + hold + 0.9, 4), "who": "s", "op": "write", "stream": "bidi", "n": 3000, "fin": True})
+        script.sort(key=lambda o: o["t"])
+        cfg = {"cc": cc, "client_version": V1, "server_versions": [V1, V2], "max_data": 1048576, "max_stream_data": 1048576, "mds": mds,
+               "hold_client_datagrams": [round(t_rebind - 0.03, 4), t_rebind, hold]}
+        return {"cfg": cfg, "script": script, "fates": [], "jitter": [0.0], "adv_end": 3.0, "fair": 20.0}
+
+    return st.tuples(
+        st.sampled_from([0.5, 0.8, 1.0]), st.integers(1, 3), st.sampled_from([0.15, 0.3, 0.6]), st.integers(1, 4), st.sampled_from([100, 5000, 60000]), st.booleans(),
+        st.sampled_from(["reno", "cubic"]), st.sampled_from([1200, 1350]), st.sampled_from([0, 0, 2000]),
+    ).map(build)
+
+
+def probe_then_silence_strategy():
+    """a client whose address is rebound and that pings once from the new address: the server challenges the new path, the client's answer is a
+    packet with nothing but PATH_RESPONSE; then the network goes dark at a generated moment, often with that packet the last one the server got"""
+    from hypothesis import strategies as st
+
+    def build(t):
+        t_rebind, dark, idle, cc, mds, d, n_ping = t
+        script = [{"t": t_rebind, "who": "c", "op": "rebind"}]
+        for i in range(n_ping):
+            script.append({"t": round(t_rebind + 0.001 + 0.2 * i, 4), "who": "c", "op": "ping"})
+        script.append({"t": round(t_rebind + 0.2 * (n_ping - 1) + dark, 4), "who": "c", "op": "blackout"})
+        cfg = {"cc": cc, "client_version": V1, "server_versions": [V1, V2], "max_data": 1048576, "max_stream_data": 1048576, "mds": mds, "idle_timeout": idle}
+        return {"cfg": cfg, "script": script, "fates": [["deliver", d, d]] * 200, "jitter": [0.0], "adv_end": 3.0, "fair": 12.0}
+
+    return st.tuples(
+        st.sampled_from([0.5, 0.8]), st.sampled_from([0.012, 0.022, 0.025, 0.03, 0.035, 0.042, 0.046, 0.05, 0.06, 0.1]), st.sampled_from([2.0, 4.0]), st.sampled_from(["reno", "cubic"]), st.sampled_from([1200, 1350]),
+        st.sampled_from([0.005, 0.01, 0.02]), st.integers(1, 2),
     ).map(build)
 
 
@@ -881,6 +962,9 @@ def plan_for(prop, tier, seed):
         for s in range(n):
             t.append(("sim-c01-%d" % s, {"fn": "sim", "profile": "C01" if s % 2 == 0 else "C01-norebind", "examples": 220 if q else 5000, "shard": s}))
         t.append(("sim-c01-rebind-validation", {"fn": "sim", "profile": "C01-rebind-validation", "examples": 60 if q else 2000, "shard": 0}))
+        t.append(("sim-c01-late-old-address", {"fn": "sim", "profile": "C01-late-old-address", "examples": 40 if q else 1500, "shard": 0}))
+    if prop == "C09":
+        t.append(("sim-c09-probe-then-silence", {"fn": "sim", "profile": "C09-probe-then-silence", "examples": 60 if q else 1500, "shard": 0}))
     if prop in ("C09", "C12", "C13"):
         n = 14 if q else 16
         for s in range(n):
